@@ -170,6 +170,13 @@ def run(tier, seed, model_ok, spec_ok, replay=None):
                                            "spec": jval(spec), "doc": jval(doc)})
                 except Exception:
                     pass
+            if out and out[0] == "exc" and out[1] == "MalformedDataPathSpec":
+                try:
+                    pt.build()
+                    direct.append({"kind": "direct", "what": "an accepted spelling of the spec of an API-buildable path is rejected as malformed",
+                                   "spec": jval(spec), "api": pt.descr()[:300]})
+                except Exception:
+                    pass
             parts = list(spec.values())[0]
             add("part_specs", f"(run_from_part_specs {E.enc_val(parts)[6:-1] if False else '[' + '; '.join(E.enc_val(x) for x in parts) + ']'})",
                 lambda parts=parts: describe_path(v.DataPath.from_part_specs(*fresh(parts))), {"spec": jval(parts)})
